@@ -780,3 +780,52 @@ def replay(cond, args):
                         % (kinds, breaks, args['r'])}
     return {'reproduced': True, 'key': 'C02/insert-operator',
             'what': 'insert_operator on %r differs from the list-of-groups reference' % (args,)}
+
+
+# ---------------------------------------------------------------------------------------------------------------
+# the stock tables themselves (C-conditions compare trees with whatever table the factory holds; the stock default and
+# legacy tables are pinned here, written from the language: member access, then indexing, unary sign, regex match,
+# multiplicative, additive, comparison/equality/in, not, and, or, then the right-associative context-passing '->';
+# the legacy dialect has no keyword operator and '=>' as a left-associative binary operator in its own group below 'or')
+_L, _R, _P = 'BINARY_LEFT_ASSOCIATIVE', 'BINARY_RIGHT_ASSOCIATIVE', 'PREFIX_UNARY'
+DEFAULT_SPEC = [[('.', _L), ('?.', _L)], [('[]', _L), ('{}', _L)], [('+', _P), ('-', _P)], [('=~', _L), ('!~', _L)],
+                [('*', _L), ('/', _L), ('mod', _L)], [('+', _L), ('-', _L)],
+                [('>', _L), ('<', _L), ('>=', _L), ('<=', _L), ('!=', _L), ('=', _L), ('in', _L)],
+                [('not', _P)], [('and', _L)], [('or', _L)], [('->', _R)]]
+LEGACY_SPEC = DEFAULT_SPEC[:-1] + [[('=>', _L)], [('->', _R)]]
+
+
+def _groups_of(fct):
+    groups, cur, kv = [], [], None
+    for rec in fct.operators:
+        if not rec:
+            if cur:
+                groups.append(cur)
+                cur = []
+            continue
+        if rec[1] == 'NAME_VALUE_PAIR':
+            kv = rec[0]
+            continue
+        cur.append((rec[0], rec[1]))
+    if cur:
+        groups.append(cur)
+    return [sorted(g) for g in groups], kv
+
+
+def lemmas(tier):
+    import yaql
+    from yaql import legacy as yl
+    out = []
+    for label, fct, spec, kv in (('default', yaql.YaqlFactory(), DEFAULT_SPEC, '=>'), ('legacy', yl.YaqlFactory(), LEGACY_SPEC, None)):
+        got, gkv = _groups_of(fct)
+        want = [sorted(g) for g in spec]
+        ok = got == want and gkv == kv
+        r = {'name': 'stock-table[%s]' % label, 'query': 'groups (tightest first) and name-value operator of the stock %s factory' % label,
+             'result': 'equal' if ok else 'differs', 'expected': 'equal', 'ok': ok, 'time_s': 0}
+        if not ok:
+            diff = [(i, a, b) for i, (a, b) in enumerate(zip(got + [None] * len(want), want + [None] * len(got))) if a != b][:3]
+            r['violation'] = {'key': 'C02/stock-table/%s' % label, 'args': {'table': label},
+                              'what': 'the %s operator table differs from the language\'s precedence order: first differing groups '
+                                      '(index, table, expected) %r; keyword operator %r (expected %r)' % (label, diff, gkv, kv)}
+        out.append(r)
+    return out
